@@ -16,7 +16,8 @@ func Unmarshal(data []byte, value interface{}) error {
 
 func (p *Plenc) Marshal(data []byte, value interface{}) ([]byte, error) {
 	typ := reflect.TypeOf(value)
-	ptr := unpackEFace(value).data
+	e := unpackEFace(value)
+	ptr := e.data
 	if typ.Kind() == reflect.Ptr {
 		typ = typ.Elem()
 
@@ -25,6 +26,11 @@ func (p *Plenc) Marshal(data []byte, value interface{}) ([]byte, error) {
 		if typ.Kind() == reflect.Map {
 			ptr = *(*unsafe.Pointer)(ptr)
 		}
+	} else if typ.Kind() != reflect.Map && isPointerShaped(typ) {
+		// Go stores pointer-shaped values (e.g. a struct whose only field is
+		// a pointer or a map) directly in the interface rather than storing
+		// a pointer to a copy. Codecs always want a pointer to the value.
+		ptr = unsafe.Pointer(&e.data)
 	}
 
 	c, err := p.CodecForType(typ)
@@ -55,4 +61,18 @@ func (p *Plenc) Unmarshal(data []byte, value interface{}) error {
 
 	_, err = c.Read(data, unsafe.Pointer(rv.Pointer()), c.WireType())
 	return err
+}
+
+// isPointerShaped reports whether values of typ are stored directly in an
+// interface's data word. This mirrors the compiler's rule.
+func isPointerShaped(typ reflect.Type) bool {
+	switch typ.Kind() {
+	case reflect.Ptr, reflect.Map, reflect.Chan, reflect.Func, reflect.UnsafePointer:
+		return true
+	case reflect.Struct:
+		return typ.NumField() == 1 && isPointerShaped(typ.Field(0).Type)
+	case reflect.Array:
+		return typ.Len() == 1 && isPointerShaped(typ.Elem())
+	}
+	return false
 }
